@@ -22,9 +22,11 @@ pub fn root(net: NetID, fee_mult: u128, with_wallet: bool) -> (World, Node) {
             0,
             b"setup".to_vec(),
         );
-        let fee = min_fee(&f, fee_mult);
         let mut f = f;
-        f.fee = melstructs::CoinValue(fee);
+        // the fee is part of the serialised size: iterate to a fixed point
+        for _ in 0..4 {
+            f.fee = melstructs::CoinValue(min_fee(&f, fee_mult));
+        }
         u.apply_tx(&f).expect("set-up faucet");
         for i in 0..f.outputs.len() {
             universe.push(f.output_coinid(i as u8));
@@ -34,7 +36,8 @@ pub fn root(net: NetID, fee_mult: u128, with_wallet: bool) -> (World, Node) {
     }
     let s = u.seal(None);
     let model = model_of(&s, &universe, &builtin_pool_keys(), &block_txs);
-    let node = Node { real: Real::Sealed(s), model, path: Arc::new(vec![format!("genesis[{:?}]", net)]), trace: Arc::new(vec![json!({"root": format!("{:?}", net), "fee_multiplier": fee_mult.to_string(), "wallet": with_wallet})]) };
+    let h0 = s.header();
+    let node = Node { real: Real::Sealed(s), model, path: Arc::new(vec![format!("genesis[{:?}]", net)]), trace: Arc::new(vec![json!({"root": format!("{:?}", net), "fee_multiplier": fee_mult.to_string(), "wallet": with_wallet})]), lineage: Arc::new(vec![h0]) };
     (w, node)
 }
 
